@@ -776,7 +776,7 @@ def _static_len(e):
                     return n
         if ls == "next":
             for s in walk(e):
-                if s[0] == "call" and lastseg(s[1]) in ("chunks_exact_mut", "chunks_exact") and is_const(strip(s[2][1])):
+                if s[0] == "call" and lastseg(s[1]) in ("chunks_exact_mut", "chunks_exact", "rchunks_exact", "rchunks_exact_mut", "windows") and is_const(strip(s[2][1])):
                     return strip(s[2][1])[1]
     if e[0] == "array":
         return len(e[1])
